@@ -235,7 +235,8 @@ def gen_history(rng: random.Random, lf: int, n_ops: int, n_tok: int, invalid_rat
                     ops.append(('from_tokens', ([free[-1]] if free else []) + [rng.choice(live)]))
             elif c < 0.96 and len(live) >= 3:
                 # reversed range: del_end at least two tokens before ref (the case "del_end is the token just
-                # before ref" is left out: the code's answer to it depends on the block layout, see C07.v)
+                # before ref" - once layout-dependent, now refused by splice() itself and modelled so in Store.v -
+                # is exercised by the exhaustive part, store_exhaustive.py: every (ref, del_end) pair)
                 i = rng.randrange(2, len(live))
                 j = rng.randrange(0, i - 1)
                 if rng.random() < 0.5:
